@@ -7,14 +7,14 @@ Open Scope string_scope.
 Open Scope nat_scope.
 
 (* ------------------------------------------------------------------ the guarded domain *)
-Inductive fline := FDir (k : dkind) (eq : bool) (sp v trail : string) | FOther (i : item).
+(* a long-form directive line: indentation, `--name<blanks/tabs>value` or `--name=value`, the
+   value bare or in single/double quotes, an optional trailing comment *)
+Inductive fline := FDir (k : dkind) (eq : bool) (ind sp q v : string) (tl : tail) | FOther (i : item).
 Definition fitem (l : fline) : item :=
-  match l with FDir k eq sp v trail => directive_item k eq sp v trail | FOther i => i end.
+  match l with FDir k eq ind sp q v tl => directive_item k eq ind sp q v tl | FOther i => i end.
 
-Definition is_sp (c : ascii) : bool := Ascii.eqb c " "%char.
-Definition spaces (s : string) : bool := all_chars is_sp s.
 Definition strip_set : string :=
-  String "="%char (String " "%char (String (ascii_of_nat 10) (String """"%char (String "'"%char EmptyString)))).
+  String "="%char (String " "%char (String (ascii_of_nat 9) (String (ascii_of_nat 10) (String """"%char (String "'"%char EmptyString))))).
 Definition in_set (c : ascii) : bool := mem_ascii c strip_set.
 Definition hash_c : ascii := "#"%char.
 
@@ -23,36 +23,36 @@ Definition hash_c : ascii := "#"%char.
 Definition value_ok (v : string) : bool :=
   word_ok v && no_quote v && negb (has_char hash_c v) && negb (startswith v "-")
   && starts_np in_set v && ends_np in_set v.
+Definition quote_ok (q : string) : bool := String.eqb q "" || String.eqb q "'" || String.eqb q """".
+(* the comment, if any, is set off by blanks/tabs *)
+Definition dir_tail_ok (tl : tail) : bool :=
+  tail_ok true tl && match t_comment tl with Some (ws, _) => sh_ws_ok ws | None => true end.
 
 Definition bzl_prefixes : list string :=
   ["--extra-index-url"; "--extra_index_url"; "--index-url"; "--index_url"; "--find-links"; "--find_links"].
-Definition neutral_line (l : string) : bool := forallb (fun p => negb (startswith l p)) bzl_prefixes.
+Definition neutral_line (l : string) : bool := forallb (fun p => negb (startswith (strip l) p)) bzl_prefixes.
 
 Definition fline_ok (l : fline) : bool :=
   match l with
-  | FDir k eq sp v trail => value_ok v && spaces trail && (eq || (nonempty sp && spaces sp))
+  | FDir k eq ind sp q v tl =>
+    value_ok v && ws_ok ind && quote_ok q && dir_tail_ok tl && (eq || (nonempty sp && sh_ws_ok sp))
   | FOther i => conv_item i && forallb neutral_line (render_item i)
                 && match i with IComment _ _ | IBlank _ | IReq _ _ _ _ _ => true | _ => false end
   end.
 
 Definition vals (k : dkind) (fl : list fline) : list string :=
   flat_map (fun l => match l with
-                     | FDir k' _ _ v _ => match k, k' with DIndex, DIndex | DExtra, DExtra | DFind, DFind => [v] | _, _ => [] end
+                     | FDir k' _ _ _ _ v _ => match k, k' with DIndex, DIndex | DExtra, DExtra | DFind, DFind => [v] | _, _ => [] end
                      | FOther _ => [] end) fl.
 
 Definition dtoks (l : fline) : list string :=
   match l with
-  | FDir k true _ v _ => [dname k ++ "=" ++ v]
-  | FDir k false _ v _ => [dname k; v]
+  | FDir k true _ _ _ v _ => [dname k ++ "=" ++ v]
+  | FDir k false _ _ _ v _ => [dname k; v]
   | FOther _ => []
   end.
 
 (* ------------------------------------------------------------------ conventional *)
-Lemma spaces_ws s : spaces s = true -> all_chars is_space s = true.
-Proof.
-  apply all_impl. intros c H. unfold is_sp in H. apply Ascii.eqb_eq in H. subst c. reflexivity.
-Qed.
-
 Lemma value_ok_inv v : value_ok v = true ->
   word_ok v = true /\ no_quote v = true /\ has_char hash_c v = false /\ startswith v "-" = false /\
   starts_np in_set v = true /\ ends_np in_set v = true.
@@ -64,44 +64,115 @@ Proof.
   repeat split; assumption.
 Qed.
 
-Lemma word_ok_app a b : word_ok a = true -> word_ok b = true -> word_ok (a ++ b) = true.
+Lemma fdir_ok_inv k eq ind sp q v tl : fline_ok (FDir k eq ind sp q v tl) = true ->
+  value_ok v = true /\ ws_ok ind = true /\ quote_ok q = true /\ dir_tail_ok tl = true /\
+  (eq = true \/ (sp <> "" /\ sh_ws_chars sp)).
 Proof.
-  unfold word_ok, nonempty. intros Ha Hb.
-  apply andb_true_iff in Ha as [Ha Ha3]. apply andb_true_iff in Ha as [Ha1 Ha2].
-  apply andb_true_iff in Hb as [Hb _]. apply andb_true_iff in Hb as [_ Hb2].
-  destruct a as [|c a]; [discriminate|]. cbn [append].
-  apply andb_true_iff; split; [apply andb_true_iff; split; [reflexivity|]|].
-  - change (String c (a ++ b)) with (String c a ++ b). rewrite all_app, Ha2, Hb2. reflexivity.
-  - exact Ha3.
-Qed.
-Lemma no_quote_app a b : no_quote a = true -> no_quote b = true -> no_quote (a ++ b) = true.
-Proof.
-  unfold no_quote. intros Ha Hb. apply andb_true_iff in Ha as [A1 A2], Hb as [B1 B2].
-  apply negb_true_iff in A1, A2, B1, B2. rewrite !has_app, A1, A2, B1, B2. reflexivity.
+  cbn [fline_ok]. intros H. apply andb_true_iff in H as [H H5]. apply andb_true_iff in H as [H H4].
+  apply andb_true_iff in H as [H H3]. apply andb_true_iff in H as [H1 H2].
+  repeat split; try assumption. destruct eq; [left; reflexivity|right].
+  cbn [orb] in H5. apply andb_true_iff in H5 as [Ha Hb]. split; [intros ->; discriminate|exact Hb].
 Qed.
 
-Lemma dir_conv k eq sp v trail : fline_ok (FDir k eq sp v trail) = true ->
-  conv_item (directive_item k eq sp v trail) = true.
+Lemma quote_cases q : quote_ok q = true -> q = "" \/ q = "'" \/ q = """".
 Proof.
-  cbn [fline_ok]. intros H. apply andb_true_iff in H as [H Hsp]. apply andb_true_iff in H as [Hv Htr].
-  destruct (value_ok_inv _ Hv) as (Hw & Hq & _).
+  unfold quote_ok. intros H. apply orb_true_iff in H as [H|H]; [apply orb_true_iff in H as [H|H]|];
+    apply String.eqb_eq in H; auto.
+Qed.
+
+Lemma shlex_word_close qc v : no_quote v = true -> is_quote qc = true ->
+  shlex_word (Some qc) (v ++ String qc "") = Some v.
+Proof.
+  unfold no_quote. intros Hv Hq. induction v as [|c v IH]; cbn [append shlex_word].
+  - rewrite Ascii.eqb_refl. reflexivity.
+  - cbn [has_char] in Hv. apply andb_true_iff in Hv as [H1 H2]. apply negb_true_iff in H1, H2.
+    apply orb_false_iff in H1 as [H1a H1b], H2 as [H2a H2b].
+    assert (Ec : Ascii.eqb c qc = false).
+    { unfold is_quote in Hq. apply orb_true_iff in Hq as [E|E]; apply Ascii.eqb_eq in E; subst qc; assumption. }
+    rewrite Ec. rewrite IH by (rewrite H1b, H2b; reflexivity). reflexivity.
+Qed.
+Lemma shlex_word_app_noq A B : has_q A = false ->
+  shlex_word None (A ++ B) = option_map (append A) (shlex_word None B).
+Proof.
+  unfold has_q. induction A as [|c A IH]; cbn [append has_char shlex_word]; intros H.
+  - destruct (shlex_word None B); reflexivity.
+  - apply orb_false_iff in H as [H1 H2]. apply orb_false_iff in H1 as [H1a H1b], H2 as [H2a H2b].
+    rewrite H1a, H2a. cbn [orb]. rewrite IH by (rewrite H1b, H2b; reflexivity).
+    destruct (shlex_word None B); reflexivity.
+Qed.
+Lemma pip_quoted q v : quote_ok q = true -> no_quote v = true -> shlex_word None (q ++ v ++ q) = Some v.
+Proof.
+  intros Hq Hv. destruct (quote_cases _ Hq) as [-> | [-> | ->]].
+  - cbn [append]. rewrite sapp_nil_r. apply shlex_noquote; exact Hv.
+  - cbn [append shlex_word Ascii.eqb Bool.eqb orb andb]. apply shlex_word_close; [exact Hv|reflexivity].
+  - cbn [append shlex_word Ascii.eqb Bool.eqb orb andb]. apply shlex_word_close; [exact Hv|reflexivity].
+Qed.
+Lemma quoted_word_ok q v : quote_ok q = true -> word_ok v = true -> word_ok (q ++ v ++ q) = true.
+Proof.
+  intros Hq Hv. destruct (quote_cases _ Hq) as [-> | [-> | ->]].
+  - cbn [append]. rewrite sapp_nil_r. exact Hv.
+  - apply word_ok_app; [reflexivity|]. apply word_ok_app; [exact Hv|reflexivity].
+  - apply word_ok_app; [reflexivity|]. apply word_ok_app; [exact Hv|reflexivity].
+Qed.
+Lemma dname_facts k : word_ok (dname k) = true /\ has_q (dname k ++ "=") = false /\ no_quote (dname k) = true.
+Proof. destruct k; repeat split. Qed.
+
+Lemma dir_tail_inv tl : dir_tail_ok tl = true -> tail_ok true tl = true /\
+  (t_comment tl = None \/ exists ws text, t_comment tl = Some (ws, text) /\ ws <> "" /\ sh_ws_chars ws).
+Proof.
+  unfold dir_tail_ok. intros H. apply andb_true_iff in H as [H1 H2]. split; [exact H1|].
+  destruct (tail_ok_inv _ _ H1) as (_ & [E | (ws & text & E & _ & Hne & _)]); [left; exact E|right].
+  rewrite E in H2. exists ws, text. repeat split; assumption.
+Qed.
+
+Lemma dir_words k eq ind sp q v tl : fline_ok (FDir k eq ind sp q v tl) = true ->
+  exists first rest, directive_item k eq ind sp q v tl = IOpt ind first rest tl /\
+    word_ok first = true /\ startswith first "-" = true /\ quotes_closed first = true /\
+    forallb gw_ok_sh rest = true /\
+    map pip_word (first :: map snd rest) = dtoks (FDir k eq ind sp q v tl) /\
+    flat first rest = dname k ++ (if eq then "=" else sp) ++ q ++ v ++ q.
+Proof.
+  intros H. destruct (fdir_ok_inv _ _ _ _ _ _ _ H) as (Hv & Hind & Hq & Htl & Hsp).
+  destruct (value_ok_inv _ Hv) as (Hw & Hnq & _).
+  destruct (dname_facts k) as (Hdw & Hdq & Hdn).
+  pose proof (pip_quoted q v Hq Hnq) as Hpq. pose proof (quoted_word_ok q v Hq Hw) as Hqw.
   unfold directive_item. destruct eq.
-  - cbn [conv_item forallb map snd]. 
-    assert (Hw' : word_ok (dname k ++ "=" ++ v) = true).
-    { rewrite <- sapp_assoc. apply word_ok_app; [destruct k; reflexivity|exact Hw]. }
-    assert (Hq' : no_quote (dname k ++ "=" ++ v) = true).
-    { rewrite <- sapp_assoc. apply no_quote_app; [destruct k; reflexivity|exact Hq]. }
-    rewrite Hw', Hq'. unfold tail_ok, ws_ok. cbn [t_trail t_comment]. rewrite (spaces_ws _ Htr).
-    destruct k; reflexivity.
-  - cbn [orb] in Hsp. apply andb_true_iff in Hsp as [Hs1 Hs2].
-    cbn [conv_item forallb map snd]. unfold gw_ok, gap_ok, ws_ok. cbn [fst snd].
-    rewrite Hs1, (spaces_ws _ Hs2), Hw, Hq. unfold tail_ok, ws_ok. cbn [t_trail t_comment]. rewrite (spaces_ws _ Htr).
-    destruct k; reflexivity.
+  - exists (dname k ++ "=" ++ q ++ v ++ q), []. 
+    assert (Hsw : shlex_word None (dname k ++ "=" ++ q ++ v ++ q) = Some (dname k ++ "=" ++ v)).
+    { rewrite <- sapp_assoc. rewrite shlex_word_app_noq by exact Hdq. rewrite Hpq. cbn [option_map]. rewrite sapp_assoc. reflexivity. }
+    repeat split.
+    + rewrite <- sapp_assoc. apply word_ok_app; [|exact Hqw]. apply word_ok_app; [exact Hdw|reflexivity].
+    + destruct k; reflexivity.
+    + unfold quotes_closed. rewrite Hsw. reflexivity.
+    + cbn [map snd dtoks]. unfold pip_word. rewrite Hsw. reflexivity.
+  - destruct Hsp as [Hsp | [Hsp1 Hsp2]]; [discriminate|].
+    exists (dname k), [(GSp sp, q ++ v ++ q)]. repeat split.
+    + exact Hdw.
+    + destruct k; reflexivity.
+    + apply no_quote_closed; exact Hdn.
+    + cbn [forallb]. unfold gw_ok_sh, gap_ok_sh, nonempty, quotes_closed. cbn [fst snd].
+      rewrite Hqw, Hpq. replace (negb (String.eqb sp "")) with true by (destruct sp; [congruence|reflexivity]).
+      unfold sh_ws_ok. rewrite Hsp2. reflexivity.
+    + cbn [map snd dtoks]. rewrite (pip_word_noquote _ Hdn). unfold pip_word. rewrite Hpq. reflexivity.
+Qed.
+
+Lemma dir_conv k eq ind sp q v tl : fline_ok (FDir k eq ind sp q v tl) = true ->
+  conv_item (directive_item k eq ind sp q v tl) = true.
+Proof.
+  intros H. destruct (dir_words _ _ _ _ _ _ _ H) as (first & rest & -> & Hw & Hd & Hq & Hr & Hm & _).
+  destruct (fdir_ok_inv _ _ _ _ _ _ _ H) as (_ & Hind & _ & Htl & _). destruct (dir_tail_inv _ Htl) as [Htl' _].
+  cbn [conv_item]. rewrite Hind, Hw, Hd, Hq, Hr, Htl'.
+  assert (Hn : is_include_form (pip_word first) = false).
+  { cbn [map] in Hm. destruct eq; cbn [dtoks] in Hm; injection Hm as Hm _; rewrite Hm.
+    - unfold is_include_form. change (dname k ++ "=" ++ v) with (dname k ++ String "="%char v).
+      rewrite partition_first_eq by (destruct k; reflexivity). destruct k; reflexivity.
+    - destruct k; reflexivity. }
+  rewrite Hn. reflexivity.
 Qed.
 
 Lemma fline_conv l : fline_ok l = true -> conv_item (fitem l) = true.
 Proof.
-  destruct l as [k eq sp v trail|i]; [apply dir_conv|].
+  destruct l as [k eq ind sp q v tl|i]; [apply dir_conv|].
   cbn [fline_ok fitem]. intros H. apply andb_true_iff in H as [H _]. apply andb_true_iff in H as [H _]. exact H.
 Qed.
 Lemma flines_conv fl : forallb fline_ok fl = true -> conventional (map fitem fl) = true.
@@ -113,14 +184,9 @@ Qed.
 Lemma fitem_flat l : fline_ok l = true ->
   item_depth (fitem l) = 0 /\ (forall fs dir, item_holds fs dir (fitem l)) /\ item_opts (fitem l) = dtoks l.
 Proof.
-  destruct l as [k eq sp v trail|i].
-  - intros H. cbn [fline_ok] in H. apply andb_true_iff in H as [H _]. apply andb_true_iff in H as [Hv _].
-    destruct (value_ok_inv _ Hv) as (_ & Hq & _).
-    unfold fitem, directive_item. destruct eq; cbn [item_depth item_holds item_opts dtoks map snd].
-    + repeat split. rewrite pip_word_noquote; [reflexivity|].
-      rewrite <- sapp_assoc. apply no_quote_app; [destruct k; reflexivity|exact Hq].
-    + repeat split. rewrite pip_word_noquote by (destruct k; reflexivity).
-      rewrite pip_word_noquote by exact Hq. reflexivity.
+  destruct l as [k eq ind sp q v tl|i].
+  - intros H. destruct (dir_words _ _ _ _ _ _ _ H) as (first & rest & E & _ & _ & _ & _ & Hm & _).
+    cbn [fitem]. rewrite E. cbn [item_depth item_holds item_opts]. repeat split. exact Hm.
   - cbn [fline_ok fitem]. intros H. apply andb_true_iff in H as [_ H].
     destruct i; try discriminate; repeat split.
 Qed.
@@ -158,27 +224,6 @@ Proof.
   intros H Ht. apply andb_true_iff in H as [H1 H2]. apply negb_true_iff in H1.
   destruct (String.eqb t k) eqn:E; [apply String.eqb_eq in E; subst; congruence|]. apply IH; assumption.
 Qed.
-
-Lemma partition_acc_first c a b acc : has_char c a = false ->
-  partition_char_acc c (a ++ String c b) acc = (rev_str acc ++ a, true, b).
-Proof.
-  revert acc; induction a as [|d a IH]; intros acc H; cbn [append partition_char_acc].
-  - rewrite Ascii.eqb_refl, sapp_nil_r. reflexivity.
-  - cbn [has_char] in H. apply orb_false_iff in H as [H1 H2]. rewrite H1.
-    rewrite IH by exact H2. rewrite rev_cons, sapp_assoc. reflexivity.
-Qed.
-Lemma partition_first c a b : has_char c a = false -> partition_char c (a ++ String c b) = (a, true, b).
-Proof. intros H. unfold partition_char. rewrite partition_acc_first by exact H. reflexivity. Qed.
-Lemma partition_acc_none c s acc : has_char c s = false ->
-  partition_char_acc c s acc = (rev_str acc ++ s, false, "").
-Proof.
-  revert acc; induction s as [|d s IH]; intros acc H; cbn [partition_char_acc].
-  - rewrite sapp_nil_r. reflexivity.
-  - cbn [has_char] in H. apply orb_false_iff in H as [H1 H2]. rewrite H1.
-    rewrite IH by exact H2. rewrite rev_cons, sapp_assoc. reflexivity.
-Qed.
-Lemma partition_none c s : has_char c s = false -> partition_char c s = (s, false, "").
-Proof. intros H. unfold partition_char. rewrite partition_acc_none by exact H. reflexivity. Qed.
 
 Lemma classify_dname k : classify (dname k) = CO (Some (act_of k)) (dname k) None.
 Proof. destruct k; vm_compute; reflexivity. Qed.
@@ -225,8 +270,8 @@ Qed.
 
 Definition dcls (l : fline) : list (string * pcls) :=
   match l with
-  | FDir k true _ v _ => [(dname k ++ "=" ++ v, PO (Some (act_of k)) (dname k) (Some v))]
-  | FDir k false _ v _ => [(dname k, PO (Some (act_of k)) (dname k) None); (v, PA)]
+  | FDir k true _ _ _ v _ => [(dname k ++ "=" ++ v, PO (Some (act_of k)) (dname k) (Some v))]
+  | FDir k false _ _ _ v _ => [(dname k, PO (Some (act_of k)) (dname k) None); (v, PA)]
   | FOther _ => []
   end.
 
@@ -238,8 +283,8 @@ Lemma classify_all_dirs fl : forallb fline_ok fl = true ->
 Proof.
   induction fl as [|l fl IH]; cbn [forallb flat_map]; [reflexivity|].
   intros H. apply andb_true_iff in H as [H1 H2]. specialize (IH H2).
-  destruct l as [k eq sp v trail|i]; [|cbn [dtoks dcls app]; exact IH].
-  cbn [fline_ok] in H1. apply andb_true_iff in H1 as [H1 _]. apply andb_true_iff in H1 as [Hv _].
+  destruct l as [k eq ind sp q v tl|i]; [|cbn [dtoks dcls app]; exact IH].
+  destruct (fdir_ok_inv _ _ _ _ _ _ _ H1) as (Hv & _).
   destruct (value_ok_inv _ Hv) as (Hw & _ & _ & Hd & _).
   destruct eq; cbn [dtoks dcls app classify_all].
   - destruct (classify_eq k v) as [-> ->]. rewrite IH. reflexivity.
@@ -266,7 +311,7 @@ Definition nval (k : dkind) (v : string) : string := if norm_of k then norm_inde
 
 Definition napply (l : fline) (n : ns) : ns :=
   match l with
-  | FDir k _ _ v _ => apply_val (dest_of k) 0 (norm_of k) v n
+  | FDir k _ _ _ _ v _ => apply_val (dest_of k) 0 (norm_of k) v n
   | FOther _ => n
   end.
 
@@ -275,8 +320,8 @@ Lemma consume_dirs fl : forallb fline_ok fl = true -> forall r n,
 Proof.
   induction fl as [|l fl IH]; cbn [forallb flat_map fold_left app]; [reflexivity|].
   intros H r n. apply andb_true_iff in H as [H1 H2].
-  destruct l as [k eq sp v trail|i]; [|cbn [dcls app napply]; apply IH; exact H2].
-  cbn [fline_ok] in H1. apply andb_true_iff in H1 as [H1 _]. apply andb_true_iff in H1 as [Hv _].
+  destruct l as [k eq ind sp q v tl|i]; [|cbn [dcls app napply]; apply IH; exact H2].
+  destruct (fdir_ok_inv _ _ _ _ _ _ _ H1) as (Hv & _).
   destruct (value_ok_inv _ Hv) as (Hw & _ & _ & Hd & _).
   destruct (classify_value v (word_nonempty _ Hw) Hd) as [_ Hne].
   rewrite <- app_assoc. destruct eq; cbn [dcls app consume napply].
@@ -287,11 +332,11 @@ Qed.
 Lemma ns_get_fold d fl : forall n,
   ns_get d (fold_left (fun a l => napply l a) fl n) =
   (ns_get d n ++ flat_map (fun l => match l with
-                                    | FDir k _ _ v _ => if String.eqb (dest_of k) d then [nval k v] else []
+                                    | FDir k _ _ _ _ v _ => if String.eqb (dest_of k) d then [nval k v] else []
                                     | FOther _ => [] end) fl)%list.
 Proof.
   induction fl as [|l fl IH]; intros n; cbn [fold_left flat_map]; [rewrite app_nil_r; reflexivity|].
-  rewrite IH. destruct l as [k eq sp v trail|i]; cbn [napply]; [|reflexivity].
+  rewrite IH. destruct l as [k eq ind sp q v tl|i]; cbn [napply]; [|reflexivity].
   unfold apply_val. rewrite ns_get_set. unfold nval.
   destruct (String.eqb (dest_of k) d) eqn:E.
   - apply String.eqb_eq in E. subst d. rewrite <- app_assoc. reflexivity.
@@ -300,11 +345,11 @@ Qed.
 
 Lemma flat_dest k fl :
   flat_map (fun l => match l with
-                     | FDir k' _ _ v _ => if String.eqb (dest_of k') (dest_of k) then [nval k' v] else []
+                     | FDir k' _ _ _ _ v _ => if String.eqb (dest_of k') (dest_of k) then [nval k' v] else []
                      | FOther _ => [] end) fl = map (nval k) (vals k fl).
 Proof.
   unfold vals. induction fl as [|l fl IH]; cbn [flat_map map]; [reflexivity|].
-  rewrite map_app, <- IH. f_equal. destruct l as [k' eq sp v trail|i]; [|reflexivity].
+  rewrite map_app, <- IH. f_equal. destruct l as [k' eq ind sp q v tl|i]; [|reflexivity].
   destruct k, k'; reflexivity.
 Qed.
 
@@ -313,7 +358,7 @@ Lemma cli_parse_dirs fl : forallb fline_ok fl = true ->
     ns_get "index_urls" n = map norm_index_url (vals DIndex fl) /\
     ns_get "extra_index_urls" n = map norm_index_url (vals DExtra fl) /\
     ns_get "find_links" n = vals DFind fl /\
-    ns_get "editable_sources" n = [].
+    ns_get "editable_sources" n = [] /\ ns_get "no_index" n = [].
 Proof.
   intros H. unfold cli_parse. rewrite classify_all_dirs by exact H.
   exists (fold_left (fun a l => napply l a) fl []). split.
@@ -322,20 +367,31 @@ Proof.
     rewrite (flat_dest DIndex), (flat_dest DExtra), (flat_dest DFind).
     repeat split; try reflexivity.
     + unfold nval. cbn [norm_of]. rewrite map_id. reflexivity.
-    + induction fl as [|l fl IH]; [reflexivity|]. cbn [forallb] in H. apply andb_true_iff in H as [_ H2].
-      cbn [flat_map]. rewrite IH by exact H2. destruct l as [k eq sp v trail|i]; [destruct k|]; reflexivity.
+    + clear H. induction fl as [|l fl IH]; [reflexivity|].
+      cbn [flat_map]. rewrite IH. destruct l as [k eq ind sp q v tl|i]; [destruct k|]; reflexivity.
+    + clear H. induction fl as [|l fl IH]; [reflexivity|].
+      cbn [flat_map]. rewrite IH. destruct l as [k eq ind sp q v tl|i]; [destruct k|]; reflexivity.
 Qed.
 
 (* ------------------------------------------------------------------ the Bazel scanner *)
 Definition kidx (k : dkind) : nat := match k with DIndex => 0 | DExtra => 1 | DFind => 2 end.
 
+Lemma bzl_line_strip l t : bzl_line l t =
+  fold_left (fun acc (rule : list string * nat * nat) =>
+    match rule with
+    | (pres, cut, tgt) =>
+      if existsb (fun p => startswith (strip l) p) pres then t_add tgt (sanitize (drop cut (strip l))) acc
+      else acc
+    end) c16_bzl_rules t.
+Proof. unfold bzl_line. destruct gen_bzl_ok as (_ & _ & _ & ->). reflexivity. Qed.
+
 Lemma bzl_neutral l t : neutral_line l = true -> bzl_line l t = t.
 Proof.
   unfold neutral_line, bzl_prefixes. cbn [forallb]. intros H.
-  repeat (apply andb_true_iff in H as [? H]). 
+  repeat (apply andb_true_iff in H as [? H]).
   repeat match goal with Hx : negb _ = true |- _ => apply negb_true_iff in Hx end.
-  unfold bzl_line. destruct gen_bzl_ok as (-> & _). cbn [fold_left existsb].
-  repeat match goal with Hx : startswith l _ = false |- _ => rewrite Hx end. reflexivity.
+  rewrite bzl_line_strip. destruct gen_bzl_ok as (-> & _). cbn [fold_left existsb].
+  repeat match goal with Hx : startswith (strip l) _ = false |- _ => rewrite Hx end. reflexivity.
 Qed.
 
 Lemma in_set_not_hash s : all_chars in_set s = true -> has_char hash_c s = false.
@@ -343,36 +399,67 @@ Proof.
   intros H. apply has_false_all. eapply all_impl; [|exact H]. intros c Hc.
   destruct (Ascii.eqb c hash_c) eqn:E; [|reflexivity]. apply Ascii.eqb_eq in E. subst c. discriminate Hc.
 Qed.
-Lemma spaces_in_set s : spaces s = true -> all_chars in_set s = true.
-Proof. apply all_impl. intros c H. unfold is_sp in H. apply Ascii.eqb_eq in H. subst c. reflexivity. Qed.
-
-Lemma sanitize_val pre v trail : all_chars in_set pre = true -> spaces trail = true -> value_ok v = true ->
-  sanitize (pre ++ v ++ trail) = v.
+Lemma sh_ws_in_set s : sh_ws_chars s -> all_chars in_set s = true.
 Proof.
-  intros Hpre Htr Hv. destruct (value_ok_inv _ Hv) as (_ & _ & Hh & _ & Hs & He).
-  unfold sanitize. destruct gen_bzl_ok as (_ & -> & ->).
-  rewrite partition_none.
-  - unfold strip_chars, rstrip_chars, lstrip_chars. apply (strip_by_sandwich in_set); try assumption.
-    apply spaces_in_set; exact Htr.
-  - fold hash_c. rewrite !has_app, Hh, (in_set_not_hash _ Hpre), (in_set_not_hash _ (spaces_in_set _ Htr)). reflexivity.
+  apply all_impl. intros c H. apply orb_true_iff in H as [H|H]; apply Ascii.eqb_eq in H; subst c; reflexivity.
+Qed.
+Lemma quote_in_set q : quote_ok q = true -> all_chars in_set q = true.
+Proof. intros H. destruct (quote_cases _ H) as [-> | [-> | ->]]; reflexivity. Qed.
+
+(* sanitize( sep q value q [blanks # comment] ) = value *)
+Lemma sanitize_val pre q v tl : all_chars in_set pre = true -> quote_ok q = true -> value_ok v = true ->
+  dir_tail_ok tl = true -> sanitize (pre ++ q ++ v ++ q ++ tailT tl) = v.
+Proof.
+  intros Hpre Hq Hv Htl. destruct (value_ok_inv _ Hv) as (_ & _ & Hh & _ & Hs & He).
+  pose proof (quote_in_set _ Hq) as Hqs.
+  unfold sanitize. destruct gen_bzl_ok as (_ & -> & -> & _). fold strip_set hash_c.
+  assert (Hstrip : forall post, all_chars in_set post = true ->
+            strip_chars strip_set (pre ++ q ++ v ++ q ++ post) = v).
+  { intros post Hpost. unfold strip_chars, rstrip_chars, lstrip_chars.
+    replace (pre ++ q ++ v ++ q ++ post) with ((pre ++ q) ++ v ++ (q ++ post)) by (rewrite !sapp_assoc; reflexivity).
+    apply (strip_by_sandwich in_set); try assumption; rewrite all_app; [rewrite Hpre, Hqs|rewrite Hqs, Hpost]; reflexivity. }
+  destruct (dir_tail_inv _ Htl) as (_ & [E | (ws & text & E & Hne & Hws)]); unfold tailT; rewrite E.
+  - rewrite partition_none.
+    + apply (Hstrip ""). reflexivity.
+    + rewrite !has_app, Hh, (in_set_not_hash _ Hpre), (in_set_not_hash _ Hqs). reflexivity.
+  - replace (pre ++ q ++ v ++ q ++ ws ++ "#" ++ text) with ((pre ++ q ++ v ++ q ++ ws) ++ String hash_c text)
+      by (rewrite !sapp_assoc; reflexivity).
+    rewrite partition_first.
+    + apply Hstrip. apply sh_ws_in_set; exact Hws.
+    + rewrite !has_app, Hh, (in_set_not_hash _ Hpre), (in_set_not_hash _ Hqs), (in_set_not_hash _ (sh_ws_in_set _ Hws)). reflexivity.
 Qed.
 
 Definition dsep (eq : bool) (sp : string) : string := if eq then "=" else sp.
-Lemma render_dir k eq sp v trail :
-  render_item (directive_item k eq sp v trail) = [dname k ++ dsep eq sp ++ v ++ trail].
+Lemma render_dir k eq ind sp q v tl : fline_ok (FDir k eq ind sp q v tl) = true ->
+  exists body, render_item (directive_item k eq ind sp q v tl) = [ind ++ body ++ render_tail tl] /\
+    good_body body /\ body = dname k ++ dsep eq sp ++ q ++ v ++ q.
 Proof.
-  unfold directive_item, dsep. destruct eq; cbn [render_item render_rest render_tail t_comment t_trail append].
-  - rewrite !sapp_assoc. reflexivity.
-  - rewrite !sapp_assoc. reflexivity.
+  intros H. destruct (dir_words _ _ _ _ _ _ _ H) as (first & rest & E & Hw & _ & _ & Hr & _ & Hf).
+  destruct (fdir_ok_inv _ _ _ _ _ _ _ H) as (Hv & _ & Hq & _ & Hsp).
+  destruct (value_ok_inv _ Hv) as (Hvw & _).
+  exists (dname k ++ dsep eq sp ++ q ++ v ++ q). rewrite E. unfold directive_item in E. destruct eq; injection E as <- <-.
+  - cbn [render_item render_rest dsep].
+    split; [f_equal; repeat (rewrite !sapp_assoc || cbn [append]); reflexivity|]. split; [|reflexivity].
+    apply word_good. exact Hw.
+  - cbn [render_item render_rest dsep].
+    split; [f_equal; repeat (rewrite !sapp_assoc || cbn [append]); reflexivity|]. split; [|reflexivity].
+    destruct Hsp as [Hsp | [Hsp1 Hsp2]]; [discriminate|].
+    apply good_body_ext; [apply word_good; exact Hw|apply sh_ws_space; exact Hsp2|].
+    apply word_good. apply quoted_word_ok; assumption.
 Qed.
 
-Lemma bzl_dir_line k X t : bzl_line (dname k ++ X) t = t_add (kidx k) (sanitize X) t.
+Lemma bzl_dir_line k X t : bzl_line (dname k ++ X) t = bzl_line (dname k ++ X) t.
+Proof. reflexivity. Qed.
+
+Lemma bzl_dir_stripped k X t ind trail :
+  strip (ind ++ (dname k ++ X) ++ trail) = dname k ++ X ->
+  bzl_line (ind ++ (dname k ++ X) ++ trail) t = t_add (kidx k) (sanitize X) t.
 Proof.
-  unfold bzl_line. destruct gen_bzl_ok as (-> & _). destruct k; cbn; reflexivity.
+  intros Hs. rewrite bzl_line_strip, Hs. destruct gen_bzl_ok as (-> & _). destruct k; cbn; reflexivity.
 Qed.
 
 Definition badd (l : fline) (t : triple) : triple :=
-  match l with FDir k _ _ v _ => t_add (kidx k) v t | FOther _ => t end.
+  match l with FDir k _ _ _ _ v _ => t_add (kidx k) v t | FOther _ => t end.
 
 Lemma fold_neutral ls t : forallb neutral_line ls = true -> fold_left (fun acc l => bzl_line l acc) ls t = t.
 Proof.
@@ -386,12 +473,20 @@ Proof.
   induction fl as [|l fl IH]; cbn [forallb map]; intros H t; [reflexivity|].
   apply andb_true_iff in H as [H1 H2]. unfold render. cbn [flat_map]. rewrite fold_left_app.
   fold (render (map fitem fl)). cbn [fold_left]. rewrite <- IH by exact H2. f_equal.
-  destruct l as [k eq sp v trail|i].
-  - cbn [fitem badd]. rewrite render_dir. cbn [fold_left]. rewrite bzl_dir_line.
-    cbn [fline_ok] in H1. apply andb_true_iff in H1 as [H1 Hsp]. apply andb_true_iff in H1 as [Hv Htr].
-    rewrite sanitize_val; [reflexivity| |exact Htr|exact Hv].
-    unfold dsep. destruct eq; [reflexivity|]. cbn [orb] in Hsp. apply andb_true_iff in Hsp as [_ Hsp].
-    apply spaces_in_set; exact Hsp.
+  destruct l as [k eq ind sp q v tl|i].
+  - cbn [fitem badd]. destruct (render_dir _ _ _ _ _ _ _ H1) as (body & -> & Hb & Eb).
+    destruct (fdir_ok_inv _ _ _ _ _ _ _ H1) as (Hv & Hind & Hq & Htl & Hsp).
+    destruct (dir_tail_inv _ Htl) as [Htl' _].
+    destruct (body_tail_good _ _ _ Hb Htl') as (G1 & G2 & _).
+    destruct (tail_ok_inv _ _ Htl') as (Htr & _).
+    cbn [fold_left]. rewrite render_tail_eq.
+    replace (ind ++ body ++ tailT tl ++ t_trail tl) with (ind ++ (dname k ++ (dsep eq sp ++ q ++ v ++ q ++ tailT tl)) ++ t_trail tl)
+      by (rewrite Eb, !sapp_assoc; reflexivity).
+    rewrite bzl_dir_stripped.
+    + rewrite sanitize_val; [reflexivity| |exact Hq|exact Hv|exact Htl].
+      unfold dsep. destruct eq; [reflexivity|]. destruct Hsp as [Hsp | [_ Hsp]]; [discriminate|]. apply sh_ws_in_set; exact Hsp.
+    + replace (dname k ++ dsep eq sp ++ q ++ v ++ q ++ tailT tl) with (body ++ tailT tl) by (rewrite Eb, !sapp_assoc; reflexivity).
+      apply strip_sandwich; assumption.
   - cbn [fitem badd]. cbn [fline_ok] in H1. apply andb_true_iff in H1 as [H1 _]. apply andb_true_iff in H1 as [_ Hn].
     apply fold_neutral; exact Hn.
 Qed.
@@ -401,7 +496,7 @@ Lemma badd_fold fl : forall a b c,
   ((a ++ vals DIndex fl)%list, (b ++ vals DExtra fl)%list, (c ++ vals DFind fl)%list).
 Proof.
   unfold vals. induction fl as [|l fl IH]; intros a b c; cbn [fold_left flat_map]; [rewrite !app_nil_r; reflexivity|].
-  destruct l as [k eq sp v trail|i]; cbn [badd]; [|rewrite IH; reflexivity].
+  destruct l as [k eq ind sp q v tl|i]; cbn [badd]; [|rewrite IH; reflexivity].
   destruct k; cbn [kidx t_add]; rewrite IH; cbn [app]; rewrite <- ?app_assoc; reflexivity.
 Qed.
 
@@ -449,82 +544,93 @@ Section Fronts.
   Variable valid : string -> bool.
   Variable fs : string -> option (list string).
 
-  Theorem front_ends_agree : forall bi be fuel path (fl : list fline),
+  (* bi be bf bno: --index-url / --extra-index-url / --find-links / --no-index given on the
+     command line itself *)
+  Theorem front_ends_agree : forall bi be bf bno fuel path (fl : list fline),
     forallb fline_ok fl = true ->
     fs path = Some (render (map fitem fl)) -> 0 < fuel ->
     (forall t, In (req_meaning t) (reqs_of (map fitem fl)) -> valid t = true) ->
     exists rc rb,
-      cli_front_with bi be (req_iter valid fs fuel path) = FOk rc /\
+      cli_front_full bi be bf bno (req_iter valid fs fuel path) = FOk rc /\
       bazel_front (req_iter valid fs fuel path) (render (map fitem fl)) = FOk rb /\
       r_index rb = vals DIndex fl /\ r_extra rb = vals DExtra fl /\ r_find rb = vals DFind fl /\
       (forall u, In u (r_index rc) <-> In u bi \/ In u (map norm_index_url (r_index rb))) /\
       (forall u, In u (r_extra rc) <-> In u be \/ In u (map norm_index_url (r_extra rb))) /\
-      r_find rc = [] /\ r_noindex rc = false /\ r_noindex rb = false /\
+      (forall u, In u (r_find rc) <-> In u bf \/ In u (r_find rb)) /\
+      r_noindex rc = bno /\ r_noindex rb = false /\
       (NoDup bi -> exists tl, r_index rc = (bi ++ tl)%list) /\
-      (NoDup be -> exists tl, r_extra rc = (be ++ tl)%list).
+      (NoDup be -> exists tl, r_extra rc = (be ++ tl)%list) /\
+      (NoDup bf -> exists tl, r_find rc = (bf ++ tl)%list).
   Proof.
-    intros bi be fuel path fl Hok Hfs Hfuel Hvalid.
+    intros bi be bf bno fuel path fl Hok Hfs Hfuel Hvalid.
     destruct (flines_flat _ Hok) as (Hd & Hh & Ho).
     destruct (reads_like_pip valid fs fuel path (map fitem fl) (flines_conv _ Hok) Hfs (Hh fs _) ltac:(lia) Hvalid)
       as (texts & Er & _).
     rewrite Er, Ho. unfold bazel_front. rewrite scan_dirs by exact Hok.
-    destruct (cli_parse_dirs _ Hok) as (n & En & Ni & Ne & Nf & Ned).
-    unfold cli_front_with. destruct (flat_map dtoks fl) as [|tk tks] eqn:Et.
+    destruct (cli_parse_dirs _ Hok) as (n & En & Ni & Ne & Nf & Ned & Nno).
+    unfold cli_front_full. destruct (flat_map dtoks fl) as [|tk tks] eqn:Et.
     - (* no directive at all *)
       assert (Hnil : forall k, vals k fl = []).
       { intros k. unfold vals. clear -Et. induction fl as [|l fl IH]; [reflexivity|].
-        cbn [flat_map] in *. destruct l as [k' [|] sp v trail|i]; cbn [dtoks app] in Et; try discriminate.
+        cbn [flat_map] in *. destruct l as [k' [|] ind sp q v tl|i]; cbn [dtoks app] in Et; try discriminate.
         apply IH; exact Et. }
       eexists; eexists. repeat split; cbn [r_index r_extra r_find r_noindex]; rewrite ?Hnil; cbn; try tauto;
         intros _; exists []; rewrite app_nil_r; reflexivity.
-    - rewrite En, Ned.
+    - rewrite En, Ned, Nno.
       destruct gen_cli_ok as (_ & _ & _ & Em). unfold merged. rewrite Em. cbn [existsb String.eqb Ascii.eqb Bool.eqb orb andb].
       eexists; eexists. repeat split; cbn [r_index r_extra r_find r_noindex].
       + rewrite Ni. apply dedup_in.
       + rewrite Ni. apply dedup_in.
       + rewrite Ne. apply dedup_in.
       + rewrite Ne. apply dedup_in.
+      + rewrite Nf. apply dedup_in.
+      + rewrite Nf. apply dedup_in.
+      + cbn. apply orb_false_r.
+      + apply dedup_append_prefix.
       + apply dedup_append_prefix.
       + apply dedup_append_prefix.
   Qed.
-
 End Fronts.
 
-(* the index/extra-index locations the command line uses are the declared ones (up to the
-   trailing-slash normalisation of norm_index_url) *)
-Corollary index_options_honoured (valid : string -> bool) (fs : string -> option (list string)) :
+(* the index, extra-index and find-links locations the command line uses are the declared
+   ones (index urls up to the trailing-slash normalisation of norm_index_url) *)
+Corollary options_honoured (valid : string -> bool) (fs : string -> option (list string)) :
   forall fuel path (fl : list fline),
     forallb fline_ok fl = true ->
     fs path = Some (render (map fitem fl)) -> 0 < fuel ->
     (forall t, In (req_meaning t) (reqs_of (map fitem fl)) -> valid t = true) ->
     exists rc, cli_front (req_iter valid fs fuel path) = FOk rc /\
       (forall u, In u (r_index rc) <-> In u (map norm_index_url (vals DIndex fl))) /\
-      (forall u, In u (r_extra rc) <-> In u (map norm_index_url (vals DExtra fl))).
+      (forall u, In u (r_extra rc) <-> In u (map norm_index_url (vals DExtra fl))) /\
+      (forall u, In u (r_find rc) <-> In u (vals DFind fl)).
 Proof.
   intros fuel path fl H1 H2 H3 H4.
-  destruct (front_ends_agree valid fs [] [] fuel path fl H1 H2 H3 H4) as (rc & rb & E1 & _ & Ei & Ee & _ & Hi & He & _).
-  exists rc. split; [exact E1|]. rewrite <- Ei, <- Ee. split; intros u; [rewrite Hi|rewrite He]; cbn [In]; tauto.
+  destruct (front_ends_agree valid fs [] [] [] false fuel path fl H1 H2 H3 H4)
+    as (rc & rb & E1 & _ & Ei & Ee & Ef & Hi & He & Hf & _).
+  exists rc. split; [exact E1|]. rewrite <- Ei, <- Ee, <- Ef.
+  split; [|split]; intros u; [rewrite Hi|rewrite He|rewrite Hf]; cbn [In]; tauto.
 Qed.
 
 (* ---- the guard is satisfiable by a file with all three directive kinds, both spellings,
-   a comment, and a hashed requirement on continuation lines *)
+   indentation, tabs, quotes, a trailing comment, and a hashed requirement on continuation lines *)
+Definition htab : string := String (ascii_of_nat 9) EmptyString.
 Definition ex_fl : list fline :=
   [FOther (IComment "" " indexes");
-   FDir DIndex false " " "http://x/simple/" "";
-   FDir DExtra true "" "http://y/s" "  ";
+   FDir DIndex false "  " " " "" "http://x/simple/" (mkTail (Some ("  ", " main")) "");
+   FDir DExtra true "" "" """" "http://y/team_s" (mkTail None "  ");
    FOther (IReq "" "foo==1.0" [] [(GBr " " "    ", "--hash=sha256:aa")] (mkTail None ""));
-   FDir DFind false "  " "./links" "";
-   FDir DIndex true "" "http://x/simple" ""].
+   FDir DFind false htab htab "'" "./wheel_cache" (mkTail None "");
+   FDir DIndex true "" "" "" "http://x/simple" (mkTail None "")].
 Definition ex_fl_fs : string -> option (list string) :=
   fun p => if String.eqb p "reqs.in" then Some (render (map fitem ex_fl)) else None.
 
 Lemma front_ends_agree_example :
   forallb fline_ok ex_fl = true /\
-  render (map fitem ex_fl) = ["# indexes"; "--index-url http://x/simple/"; "--extra-index-url=http://y/s  ";
-                              "foo==1.0 \"; "    --hash=sha256:aa"; "--find-links  ./links";
+  render (map fitem ex_fl) = ["# indexes"; "  --index-url http://x/simple/  # main"; "--extra-index-url=""http://y/team_s""  ";
+                              "foo==1.0 \"; "    --hash=sha256:aa"; htab ++ "--find-links" ++ htab ++ "'./wheel_cache'";
                               "--index-url=http://x/simple"] /\
-  cli_front (req_iter (fun _ => true) ex_fl_fs 1 "reqs.in") =
-    FOk (mkRepos ["http://x/simple"] ["http://y/s"] [] false) /\
+  cli_front_full ["http://cli/s"] [] ["./own"] false (req_iter (fun _ => true) ex_fl_fs 1 "reqs.in") =
+    FOk (mkRepos ["http://cli/s"; "http://x/simple"] ["http://y/team_s"] ["./own"; "./wheel_cache"] false) /\
   bazel_front (req_iter (fun _ => true) ex_fl_fs 1 "reqs.in") (render (map fitem ex_fl)) =
-    FOk (mkRepos ["http://x/simple/"; "http://x/simple"] ["http://y/s"] ["./links"] false).
+    FOk (mkRepos ["http://x/simple/"; "http://x/simple"] ["http://y/team_s"] ["./wheel_cache"] false).
 Proof. vm_compute. repeat split; reflexivity. Qed.
